@@ -74,6 +74,17 @@ def run(tier, seed):
                 return y
     vlib.selfcheck_replay(c, "rtrclient", cs_cases, corrupt_cs, "clientstream.verdict")
 
+    # impl -> spec: random conversations (any number of payload PDUs, arbitrary wrong values, cuts at any octet, reads in random
+    # pieces) recorded and explained event by event by Trace_RtrClientStream, the reader's own steps taken as silent steps
+    def mut_cs(items):
+        for k, it in enumerate(items):
+            if it["ev"] == "step" and it["verdict"] == "err":
+                it["verdict"] = "ok"
+                it["items"] = 1
+                return k + 1
+        return 0
+    vlib.trace_rounds(c, "Trace_RtrClientStream", "rtrclient", [seed * 1000 + 500 + i for i in range(2 if quick else 20)], 300 if quick else 2000, mut_cs)
+
     def corrupt(cs):
         for x in cs:
             if x["op"] == "read" and x["verdict"] == "ok":
